@@ -28,8 +28,6 @@ pub open spec fn pack_type_spec(p: IndexPack) -> BlobType {
 impl IndexPack {
     #[verifier::external_body]
     pub fn pack_size(&self) -> (r: u32) ensures r == pack_size_spec(*self), { unimplemented!() }
-    pub fn blob_type(&self) -> (r: BlobType) ensures r == pack_type_spec(*self),
-    { if self.blobs.len() == 0 { BlobType::Data } else { self.blobs[0].tpe } }
 }
 
 pub struct IndexEntry { pub blob_type: BlobType, pub pack: PackId, pub location: BlobLocation }
